@@ -1,5 +1,6 @@
 """C08 — Values and panics cross the coroutine boundary faithfully (structural clauses)."""
 from rules.common import start
+from rules import wave2
 from rules import coro
 
 
@@ -16,4 +17,9 @@ def run(tier):
     coro.catch_rule(run, f, "C08-CATCH")
     coro.listener_rule(run, f, "C08-LISTENER")
     coro.once_rule(run, f, "C08-ONCE")
+    # clauses added for the wave-2 seeds (rules/wave2.py; DESIGN 12a)
+    wave2.current_ends_rule(run, f, "C08-CURRENT-ENDS")
+    coro.push_yield_rule(run, f, "C08-YIELD-REQUESTS")
+    coro.drain_rule(run, f, "C08-YIELD-DRAIN")
+    wave2.request_pairing_rule(run, f, "C08-REQUEST-PAIRING")
     return run.finish()
